@@ -45,9 +45,10 @@ def cases(tier):
     out = []
     for m in ('v1', 'home+v1+v2', 'nested'):
         for top in ('absent', 'sticky'):
-            for order in ('home-first', 'vol-first', 'vol-home-vol'):
+            for order in ('home-first', 'vol-first', 'vol-home-vol', 'outer-inner', 'inner-outer', 'vol-vol2'):
                 for e in ('unset', 'xdg'):
-                    out.append({'multi': order, 'm': m, 'top': top, 'env': e, 'uid': 0})
+                    for fb in (0, 1):
+                        out.append({'multi': order, 'm': m, 'top': top, 'env': e, 'uid': 0, 'fb': fb})
     for uid in ([0] if q else [0, 1000]):
         for m in (['v1', 'home', 'nested'] if q else list(MOUNTS)):
             for fb in (['off', 'both', 'flag+env0', 'env'] if q else FBS):
@@ -79,24 +80,29 @@ def run_multi(c):
     """several arguments living on different volumes in ONE run: each must go to the directory prescribed for it"""
     mounts = MOUNTS[c['m']]
     env = {'unset': {'HOME': '/home/u'}, 'xdg': {'HOME': '/home/u', 'XDG_DATA_HOME': '/home/u/xdg'}}[c['env']]
+    if c.get('fb'):
+        env = dict(env, TRASH_ENABLE_HOME_FALLBACK='1')          # fallback fully enabled: still the LAST resort for every argument
     W = scen.base_world(mounts=mounts, env=env, uid=0, cwd='/home/u/w')
-    W.dir('/mnt/v1/w').dir('/home/u/xdg')
+    W.dir('/mnt/v1/w').dir('/home/u/xdg').dir('/mnt/v1/inner/w').dir('/mnt/v2/w')
     if c['top'] == 'sticky':
         for m in mounts:
             W.dir(m.rstrip('/') + '/.Trash', mode=0o1777)
-    files = {'h': '/home/u/w/fh', 'v': '/mnt/v1/w/fv', 'v2': '/mnt/v1/w/fv2'}
+    files = {'h': '/home/u/w/fh', 'v': '/mnt/v1/w/fv', 'v2': '/mnt/v1/w/fv2', 'vi': '/mnt/v1/inner/w/fi', 'w2': '/mnt/v2/w/fw'}
     for k, p_ in files.items():
         W.file(p_, 'content %s\n' % k)
-    seq = {'home-first': ['h', 'v'], 'vol-first': ['v', 'h'], 'vol-home-vol': ['v', 'h', 'v2']}[c['multi']]
+    seq = {'home-first': ['h', 'v'], 'vol-first': ['v', 'h'], 'vol-home-vol': ['v', 'h', 'v2'], 'outer-inner': ['v', 'vi'], 'inner-outer': ['vi', 'v'],
+           'vol-vol2': ['v', 'w2']}[c['multi']]
+    if c['multi'] == 'vol-vol2' and c['top'] == 'absent':
+        W.dir('/mnt/v2/elsewhere').link('/mnt/v1/.Trash-0', '/mnt/v2/elsewhere')          # the first volume's .Trash-uid is a link into the second volume
     args = [files[k] for k in seq]
     with cell.Sandbox(W.spec()) as sb:
         before = sb.snapshot()
-        refs = [sb.probe(chooser.choose, {'arg': a, 'mounts': mounts, 'env': env, 'uid': 0, 'trash_dir': None, 'flag': False}, cwd='/home/u/w') for a in args]
-        r = sb.run(['trash-put'] + args, env=env, cwd='/home/u/w', now='2024-02-02T02:02:02')
+        refs = [sb.probe(chooser.choose, {'arg': a, 'mounts': mounts, 'env': env, 'uid': 0, 'trash_dir': None, 'flag': bool(c.get('fb'))}, cwd='/home/u/w') for a in args]
+        r = sb.run(['trash-put'] + (['--home-fallback'] if c.get('fb') else []) + args, env=env, cwd='/home/u/w', now='2024-02-02T02:02:02')
         after = sb.snapshot()
         wants = [sb.probe(chooser.realpaths, [ref['dir']], cwd='/home/u/w')[0] if ref['verdict'] == 'dir' else None for ref in refs]
     detail = {'args': args, 'mounts': mounts, 'exit': r.exit, 'err': r.err[-400:], 'refs': refs}
-    nt = 'multi|%s|%s|%s' % (c['multi'], c['m'], c['top'])
+    nt = 'multi|%s|%s|%s|fb%d' % (c['multi'], c['m'], c['top'], c.get('fb', 0))
     exdev = [t for t in r.trace if t[4] == 'EXDEV']
     for a, ref, want in zip(args, refs, wants):
         cl = scen.classify_put(before, after, a, others=[x for x in args if x != a])
@@ -104,7 +110,7 @@ def run_multi(c):
             if cl['state'] != 'TRASHED' or cl['pair'][0] != want:
                 return {'verdict': 'viol', 'sig': 'C07|multi-argument-run-used-the-wrong-trash-dir|order=%s' % c['multi'], 'klass': 'multi-wrong-dir',
                         'nontrivial': nt, 'detail': dict(detail, arg=a, state=cl['state'], pair=cl['pair'], want=want)}
-    if exdev:
+    if exdev and not c.get('fb'):
         return {'verdict': 'viol', 'sig': 'C07|cross-device-copy-without-fallback|multi', 'klass': 'xdev-copy', 'nontrivial': nt, 'detail': detail}
     return {'verdict': 'ok', 'klass': 'multi:each-in-its-prescribed-dir', 'nontrivial': nt, 'detail': detail}
 
